@@ -55,7 +55,11 @@ func TestC02(t *testing.T) {
 			// fixed prefix: three packets completed on one channel, cleaned in two steps (1, then 3) with each clean
 			// propagated, then the older receive-clean and the original receives re-submitted verbatim
 			prefix := []sim.Op{{K: "mocksend", A: 0, B: 0}, {K: "mocksend", A: 0, B: 0}, {K: "mocksend", A: 0, B: 0}, {K: "round", A: 0}, {K: "round", A: 1}, {K: "round", A: 2},
-				{K: "clean", A: 0, C: 8}, {K: "cleanflow", A: 0}, {K: "clean", A: 0, C: 0}, {K: "cleanflow", A: 0}, {K: "cleanraid", A: 0}}
+				{K: "clean", A: 0, C: 8}, {K: "cleanflow", A: 0}, {K: "clean", A: 0, C: 0}, {K: "cleanflow", A: 0}, {K: "cleanraid", A: 0},
+				// three more packets, only the last one completed; a proof-less clean request naming this channel is
+				// submitted on the receiving chain; the two undelivered packets must still get through
+				{K: "mocksend", A: 0, B: 0}, {K: "mocksend", A: 0, B: 0}, {K: "mocksend", A: 0, B: 0}, {K: "round", A: 5},
+				{K: "clean", A: 0, C: 0, U: 4}, {K: "round", A: 3}, {K: "round", A: 4}}
 			out, gen := runFixedThen(s, append(tokenPreamble(c.N), prefix...), c.Ops)
 			col.AddLabels(s.Labels)
 			if gen("resubmission-after-clean") > 0 || gen("resubmission-on-relay") > 0 {
